@@ -37,7 +37,8 @@ LEVEL_TEXT = ('Machine-checked proof (Coq 8.16.1) over an executable mechanism-l
               'Inv_idx (an index entry exists exactly for the live object holding that key value) holds and the identity map is functional, provided no dirty site '
               'was reached; the two defect sites relevant to C11 (failed Entity.set, failed creation) are refuted by witnesses in Findings/C11.v and listed as known findings. '
               'Tie: history fuzzer compares per-op results and per-commit rows of the model (vm_compute) with real Pony+SQLite on every run. '
-              'Stage 2/3 (one-to-one, many-to-many, composite keys, inheritance) are outside the theorems.')
+              'Stage 2/3 (one-to-one, many-to-many, composite keys, inheritance) are outside the theorems; one-to-one, many-to-many and composite_key are covered on the implementation side only '
+              '(half of the search histories; the composite index is checked like a simple one) - that search found a third defect: a creation that succeeds with two live objects holding one unique value.')
 LEVEL_NOTE = ('Trusted: Coq kernel + vm_compute; the hand-written model (tied by differential runs only); the fuzzer harness; the SQLite reference semantics. '
               'Optimistic checks, the query result cache and concurrent sessions are not modelled.')
 TECHNIQUE = 'Coq inductive invariant over an executable session model (all histories, fold_left); vm_compute correspondence with real Pony+SQLite on generated histories; property-oracle search with ddmin shrinking'
